@@ -77,20 +77,6 @@ def canon_u(u):
     return canon(mk_uuid(u))
 
 
-_D12E = None
-
-
-def d12e_repaired():
-    """does this tree carry the repair of D12e?  (an include declaration of a service with a
-    128-bit UUID is 4 bytes long: no UUID; before the repair: 6 bytes)"""
-    global _D12E
-    if _D12E is None:
-        from bumble.gatt import Service, IncludedServiceDeclaration
-        svc = Service(mk_uuid([128, (1 << 100) | 77]), [])
-        _D12E = len(IncludedServiceDeclaration(svc).value) == 4
-    return _D12E
-
-
 def value_bytes(vlen, salt):
     return bytes((i * 7 + salt * 13 + (i >> 8)) % 256 for i in range(vlen))
 
@@ -347,7 +333,6 @@ def gen_db_case(rng, quick):
         salt += 11
     # included services: two thirds of the databases keep them to 16-bit UUIDs (the UUID travels in
     # the include declaration), the rest exercise the nested read of the service declaration
-    # (on a tree without the repair D12e those report the known finding)
     if not rng.chance(1, 3):
         for s in services:
             for i in s['incl']:
@@ -694,11 +679,7 @@ def compare_db(ctx, case, obs, m):
     check('discover_service[absent]', by_uuid[-1], obs['by_uuid_absent'][0], obs['by_uuid_absent'][1],
           lambda ents: [[h, e, 0] for h, e, d in ents], 'by_uuid_absent')
     if len(inc) == len(obs['included']):
-        prim_specs = [s for s in case['services'] if s['primary']]
         for k, mo in enumerate(inc):
-            if not d12e_repaired() and any(case['services'][i]['uuid'][0] != 16 for i in prim_specs[k]['incl']):
-                ctx.count('db.included.not_compared_without_D12e')
-                continue
             check(f'discover_included[{k}]', mo, obs['included'][k][0], obs['included'][k][1],
                   lambda ents: [[d[0], d[1], canon_of_pdu_form(d[2], d[3])] for h, e, d in ents], f'included{k}')
         j = 0
@@ -1048,13 +1029,6 @@ def adv_model_expr(case):
 def compare_adv(ctx, case, res, m):
     kind, ents, n = mobs(m)
     proc = case['proc']
-    if proc == 'included' and not d12e_repaired():
-        # the model is the code after D12e.patch; without it a UUID-less declaration is not resolved
-        for p in case['script']:
-            r = parse_adv_pdu(proc, bytes.fromhex(p))
-            if r is not None and r[0] == 'list' and any(len(e[3]) == 2 for e in r[1]):
-                ctx.count('adv.included.not_compared_without_D12e')
-                return
     if kind == 'ok':
         if proc in ('services', 'service'):
             mv = [[h, e] for h, e, d in ents]
@@ -1468,6 +1442,185 @@ def compare_notify(ctx, case, obs, idx, mres):
             return
 
 
+# ============================================================================= fan-out independence (one bearer faults)
+def fanout_cases(transport, nmax):
+    """Every position of ONE faulty bearer in the subscription order, 2..nmax subscribed bearers,
+    three fault modes, plus an unsubscribed bystander; then some two-fault sets.
+      B    the faulty client never sends the Handle Value Confirmation (indicate_subscribers)
+      C    the characteristic's read function raises an ATT error for the faulty bearer's
+           connection (notify_subscribers / indicate_subscribers with value=None)"""
+    cases = []
+    for n in range(3 if transport == 'link' else 2, nmax + 1):
+        for mode, indicate in (('B', True), ('C', False), ('C', True)):
+            for pos in range(n):
+                order = list(range(n))
+                cases.append({'kind': 'fanout', 'transport': transport, 'clients': n + 1, 'order': order,
+                              'faulty': [order[pos]], 'mode': mode, 'indicate': indicate, 'vlen': 5 + pos})
+    for n, faulty, order in ((3, [0, 1], [0, 1, 2]), (4, [1, 2], [3, 1, 2, 0]), (4, [0, 2], [2, 0, 3, 1])):
+        if n <= nmax:
+            for mode, indicate in (('B', True), ('C', False)):
+                cases.append({'kind': 'fanout', 'transport': transport, 'clients': n, 'order': order,
+                              'faulty': faulty, 'mode': mode, 'indicate': indicate, 'vlen': 25})
+    return cases
+
+
+def freeze_clock(loop):
+    """virtual clock: timers never wait for the wall clock, they fire when the harness advances it"""
+    vt = [loop.time()]
+    loop.time = lambda: vt[0]
+    return vt
+
+
+FAN_UUID = [128, (0xF0CC2C5A0B1F4C3E << 64) | 0x9D4A11AA22BB33C1]
+
+
+async def run_fanout_impl(case):
+    from bumble import att
+    from bumble.gatt import Service, Characteristic, CharacteristicValue
+    from bumble.att import Attribute
+    loop = asyncio.get_running_loop()
+    loop.set_exception_handler(lambda l, c: None)
+    n = case['clients']
+    val = value_bytes(case['vlen'], 4)
+    unreadable = []
+
+    def read_current(connection):
+        if connection in unreadable:
+            raise att.ATT_Error(att.ATT_INSUFFICIENT_AUTHORIZATION_ERROR)
+        return val
+
+    ch = Characteristic(mk_uuid(FAN_UUID), Characteristic.Properties(0x32), Attribute.READABLE | Attribute.WRITEABLE,
+                        CharacteristicValue(read=read_current) if case['mode'] == 'C' else val)
+    svc = Service(mk_uuid([16, 0x1811]), [ch])
+    got = [[] for _ in range(n)]
+    if case['transport'] == 'mem':
+        w = World(n)
+        server = w.server
+        server.add_service(svc)
+        sconns = w.sconns
+        clients = w.clients
+        proxies = []
+        for c in clients:
+            await bounded(c.discover_services())
+            await bounded(c.discover_characteristics([], c.services[0]))
+            proxies.append(c.services[0].characteristics[0])
+
+        def mute(i):
+            w.hold_confirm[i] = True
+    else:
+        from bumble.controller import Controller
+        from bumble.device import Device, Peer
+        from bumble.hci import Address
+        from bumble.host import Host
+        from bumble.link import LocalLink
+        from bumble.transport.common import AsyncPipeSink
+        link = LocalLink()
+        addrs = [':'.join([f'F{i}'] * 6) for i in range(n + 1)]
+        ctrls = [Controller(f'C{i}', link=link, public_address=addrs[i]) for i in range(n + 1)]
+        devs = [Device(address=Address(addrs[i]), host=Host(ctrls[i], AsyncPipeSink(ctrls[i]))) for i in range(n + 1)]
+        server = devs[0].gatt_server
+        devs[0].add_service(svc)
+        for d in devs:
+            await d.power_on()
+        sconns, peers, proxies = [], [], []
+        for i in range(1, n + 1):
+            cside = {}
+            devs[i].once('connection', lambda c, cside=cside: cside.__setitem__('c', c))
+            ctask = asyncio.ensure_future(devs[0].connect(devs[i].random_address))
+            await idle(100)
+            await devs[i].start_advertising(auto_restart=False)
+
+            async def wait_task(t=ctask):
+                return await t
+            kind, sc = await bounded(wait_task(), 30000)
+            await idle(200)
+            if kind != 'ok' or 'c' not in cside:
+                return {'setup': 'no-connection'}
+            sconns.append(sc)
+            peer = Peer(cside['c'])
+            peers.append(peer)
+            await bounded(peer.discover_services(), 200000)
+            await bounded(peer.discover_characteristics(), 200000)
+            ps = peer.get_characteristics_by_uuid(mk_uuid(FAN_UUID))
+            if len(ps) != 1:
+                return {'setup': 'no-characteristic'}
+            proxies.append(ps[0])
+        clients = [p.gatt_client for p in peers]
+
+        def mute(i):
+            clients[i].send_confirmation = lambda confirmation: None
+    for i in case['order']:
+        k, _ = await bounded(clients[i].subscribe(proxies[i], (lambda v, i=i: got[i].append(bytes(v).hex())),
+                                                  prefer_notify=not case['indicate']), 200000)
+        if k != 'ok':
+            return {'setup': 'subscribe-failed'}
+    await idle(100)
+    order_seen = [sconns.index(b) for b in server.subscribers if b in sconns]
+    for g in got:
+        g.clear()
+    vt = freeze_clock(loop)
+    for i in case['faulty']:
+        if case['mode'] == 'B':
+            mute(i)
+        else:
+            unreadable.append(sconns[i])
+    if case['indicate']:
+        coro = server.indicate_subscribers(ch, val if case['mode'] == 'B' else None)
+    else:
+        coro = server.notify_subscribers(ch, None)
+    task = asyncio.ensure_future(coro)
+    await idle(400)
+    before = [list(g) for g in got]
+    vt[0] += 31.0                      # GATT_REQUEST_TIMEOUT is 30 s: an unconfirmed indication times out now
+    await idle(400)
+    done = task.done()
+    if not done:
+        task.cancel()
+    result = 'pending' if not done else ('cancelled' if task.cancelled() else 'exc' if task.exception() else 'ok')
+    return {'setup': 'ok', 'order': order_seen, 'before_timeout': before, 'received': [list(g) for g in got],
+            'call': result, 'value': val.hex()}
+
+
+def fanout_oracle(case, obs):
+    """every healthy subscribed bearer receives exactly the value, once, whatever happens on the
+    faulty one; an unsubscribed bearer and a bearer whose value cannot be read receive nothing"""
+    if obs.get('setup') != 'ok':
+        if case['transport'] == 'mem':
+            return [('fanout:setup', f'fan-out scenario could not be set up: {obs.get("setup")}')]
+        return []
+    if obs['order'] != case['order']:
+        return [('fanout:order', f'subscription order on the server {obs["order"]}, clients subscribed in order {case["order"]}')]
+    val = bytes.fromhex(obs['value'])[:20].hex()
+    bad = []
+    for i in range(case['clients']):
+        if i not in case['order']:
+            want = []
+        elif i in case['faulty'] and case['mode'] == 'C':
+            want = []
+        else:
+            want = [val]
+        if obs['received'][i] != want:
+            role = 'faulty' if i in case['faulty'] else 'healthy, subscribed' if i in case['order'] else 'not subscribed'
+            kind = 'indicate_subscribers' if case['indicate'] else 'notify_subscribers'
+            fault = ('never confirms the indication' if case['mode'] == 'B'
+                     else "cannot be served: the characteristic's read function raises an ATT error for its connection")
+            bad.append((f'fanout:{case["mode"]}:{"ind" if case["indicate"] else "ntf"}',
+                        f'{kind} over {case["transport"]} bearers subscribed in order {case["order"]}, bearer(s) {case["faulty"]} '
+                        f'{fault}: bearer {i} ({role}) received {obs["received"][i]}, expected {want} '
+                        f'(all bearers: {obs["received"]}; call ended: {obs["call"]})'))
+    return bad[:1]
+
+
+def fanout_model_expr(case):
+    h = 3
+    cccd = '[2; 0]' if case['indicate'] else '[1; 0]'
+    subs = coq_list(case['order'], lambda i: f'({i}, [({h}, {cccd})])')
+    rv = 'fun b => ' + ''.join(f'if b =? {i} then None else ' for i in case['faulty'] if case['mode'] == 'C') + \
+         f'Some {coq_value(case["vlen"], 4)}'
+    ind = 'true' if case['indicate'] else 'false'
+    return f'map (fun p => (fst (fst (fst p)), snd p)) (notify_or_indicate_subscribers_dyn {ind} (fun _ => 23) {subs} {h} ({rv}))'
+
+
 # ============================================================================= two real devices on a LocalLink (incl. EATT)
 async def run_link_impl(case):
     """Two real Devices (Host, Controller, LocalLink): discovery + long read over the whole stack,
@@ -1703,6 +1856,8 @@ def run_impl(case):
         return asyncio.run(run_read_impl(case))
     if case['kind'] == 'advread':
         return asyncio.run(run_advread_impl(case))
+    if case['kind'] == 'fanout':
+        return asyncio.run(run_fanout_impl(case))
     if case['kind'] == 'link':
         return asyncio.run(run_link_impl(case))
     raise ValueError(case['kind'])
@@ -1733,6 +1888,9 @@ def judge(ctx, case, obs):
                           f'read_value(no_long_read) returned {len(str(obs["short"])) // 2} bytes', case)
     elif k == 'link':
         for sig, text in link_oracle(case, obs):
+            ctx.violation(sig, text, case)
+    elif k == 'fanout':
+        for sig, text in fanout_oracle(case, obs):
             ctx.violation(sig, text, case)
     elif k == 'advread':
         # a read ends: offsets strictly increase (so at most 0xFFFF/(MTU-1)+1 Read Blob requests fit
@@ -1776,6 +1934,8 @@ def run(ctx):
         cases.append(gen_adv_case(rng))
     for _ in range(ctx.n(80, 2000)):
         cases.append(gen_notify_case(rng))
+    cases.extend(fanout_cases('mem', 4))
+    cases.extend(fanout_cases('link', 4)[:ctx.n(9, 40)])
     for k in range(ctx.n(24, 600)):
         cases.append(gen_advread_case(rng, endless=(k % 20 == 0), quick=ctx.quick()))
     for k in range(ctx.n(6, 40)):
@@ -1825,6 +1985,9 @@ def run(ctx):
         elif case['kind'] == 'advread':
             exprs.append(advread_model_expr(case))
             owners.append((i, 'advread', None))
+        elif case['kind'] == 'fanout' and obs.get('setup') == 'ok':
+            exprs.append(fanout_model_expr(case))
+            owners.append((i, 'fanout', None))
         elif case['kind'] == 'read':
             v = coq_value(case['vlen'], case['salt'])
             exprs.append(f'routcome_obs (read_from_server {case["vlen"] + 1}%nat {obs["mtu"]} {v})')
@@ -1863,6 +2026,10 @@ def run(ctx):
         elif kind == 'read':
             nontrivial = obs['requests'] >= 2
             ctx.count('read.requests', obs['requests'])
+        elif kind == 'fanout':
+            nontrivial = obs.get('setup') == 'ok'
+            ctx.count('fanout.' + case['transport'] + '.' + case['mode'] + ('.ind' if case['indicate'] else '.ntf'))
+            ctx.count('fanout.setup.' + str(obs.get('setup')))
         elif kind == 'advread':
             nontrivial = obs['requests'] >= 2
             ctx.count('advread.requests', obs['requests'])
@@ -1879,6 +2046,12 @@ def run(ctx):
                 compare_adv(ctx, case, obs, m)
             elif k2 == 'notify':
                 compare_notify(ctx, case, obs, extra, m)
+            elif k2 == 'fanout':
+                mp = [[] for _ in range(case['clients'])]
+                for b, v in m:
+                    mp[b].append(bytes(v).hex())
+                if mp != obs['received']:
+                    ctx.disagree('fan-out with a faulty bearer', case, mp, obs['received'])
             elif k2 == 'advread':
                 code, v = m
                 mv = ['ok', v] if code == 0 else ['exc', v if v >= 0 else -1] if code == 1 else ['fuel', None]
@@ -1898,8 +2071,10 @@ def search(ctx):
     """Directed search after a broken proof obligation (a theorem, the shape obligation of the
     translator) or a broken correspondence: the corpus, the value length x MTU grid with boundary
     MTUs, and a larger generated campaign, on the implementation only (property oracle)."""
-    for case in load_corpus():
+    for case in load_corpus() + fanout_cases('mem', 4) + fanout_cases('link', 4):
         judge(ctx, case, run_impl(case))
+    if ctx.violations:
+        return
     for mtu in (23, 24, 26, 30, 50, 185, 517):
         for k in range(0, 6):
             for d in (-1, 0, 1):
